@@ -737,6 +737,11 @@ func (ni *NodeInfo) GetRequiredInitQuota(pi *pod_info.PodInfo) *podgroup_info.Jo
 		quota.GPU = pi.ResReq.GetGpusQuota()
 	} else {
 		quota.GPU = ni.getGpuMemoryFractionalOnNode(ni.GetResourceGpuMemory(pi.ResReq))
+		// the portion above is per device: a pod asking for several devices needs that share of its
+		// queues once per device
+		if devices := pi.ResReq.GetNumOfGpuDevices(); devices > 1 {
+			quota.GPU *= float64(devices)
+		}
 	}
 	quota.MilliCPU = pi.ResReq.Cpu()
 	quota.Memory = pi.ResReq.Memory()
